@@ -30,7 +30,7 @@ PORTS = [None, 0, 1, 20, 21, 22, 79, 80, 81, 442, 443, 444, 8080, 65534, 65535, 
 HOSTS = [("h.com", "h.com", "h.com"), ("127.0.0.1", "127.0.0.1", "127.0.0.1"), ("[::1]", "::1", "[::1]"),
          ("xn--9ca.com", "é.com", "xn--9ca.com"), ("[fe80::1%eth0]", "fe80::1%eth0", "[fe80::1%eth0]"), ("h.com.", "h.com.", "h.com.")]
 USERINFO = [("", None, None), ("u@", "u", None), ("u:p@", "u", "p"), (":p@", None, "p"), ("u:@", "u", "")]
-ROUTES = ["ctor", "build_hp", "build_auth", "with_port", "with_port_replace", "rescheme_observed"]
+ROUTES = ["ctor", "ctor_encoded", "ctor_encoded_zeros", "build_hp", "build_auth", "with_port", "with_port_replace", "rescheme_observed"]
 
 
 def make(route, scheme, ui, host, port):
@@ -40,6 +40,11 @@ def make(route, scheme, ui, host, port):
     pre = (scheme + ":" if scheme else "") + "//"
     if route == "ctor":
         return U(pre + uitext + written + ("" if port is None else ":%d" % port) + "/p?q#f")
+    if route == "ctor_encoded":
+        return U(pre + uitext + written + ("" if port is None else ":%d" % port) + "/p?q#f", encoded=True)
+    if route == "ctor_encoded_zeros":
+        # RFC 3986: port = *DIGIT, leading zeros are legal; a pre-encoded URL keeps the authority as written
+        return U(pre + uitext + written + ("" if port is None else ":00%d" % port) + "/p?q#f", encoded=True)
     if route == "build_hp":
         return U.build(scheme=scheme.lower(), user=user, password=pw, host=bare, port=port, path="/p")
     if route == "build_auth":
@@ -108,6 +113,9 @@ def case_port(acc, route, scheme, ui, host, port):
         probs.append("is_default_port() %r, expected %r" % (idp, not shown))
     auth = s.split("//", 1)[1].split("/", 1)[0] if "//" in s else ""
     hostport = auth.rsplit("@", 1)[-1]
+    if route == "ctor_encoded_zeros":
+        import re as _re
+        hostport = _re.sub(r":0+(\d)", r":\1", hostport)   # the written spelling may be kept; its value is what counts
     exp_hostport = sub + (":%d" % port if shown else "")
     if hostport != exp_hostport:
         probs.append("str() shows %r, expected %r" % (hostport, exp_hostport))
